@@ -735,6 +735,7 @@ func main() {
 		par = 6
 	}
 	runAll(progs, 60, par)
+	repairAndRerun()
 	probeO9(f.Known)
 	lib.RunProbes(res, "C05", f.Known)
 	res.Extra["children_parallel"] = par
